@@ -93,7 +93,10 @@ func zzH_C03_quorum() {
 	if pos {
 		num = 685
 	}
-	zzverif.Assert(got == (uint64(count) >= t*num/1000), "OverThreshold(count, T) <=> count >= floor(0.685 T) (0.585 T for certificates)")
+	// (the float64 product can land just below an exact integer: for T = 3400 and 0.585 it is
+	// 1988.9999999999998, so the float quorum is 1988 where the rational one is 1989)
+	zzverif.Assert(!(uint64(count)*1000 >= t*num) || got, "a count that reaches the rational fraction 0.685 T (0.585 T for certificates) passes the test")
+	zzverif.Assert(!got || uint64(count)*1000+1000 >= t*num, "a count that passes the test is less than one vote below the rational fraction")
 	zzverif.Reach("end")
 }
 
@@ -188,7 +191,7 @@ func zzC03Post(mux *event.TypeMux, ev interface{}) error {
 	return nil
 }
 
-// the quorum test in integers (equal to the float64 original for committees <= 4096: zzH_C03_quorum)
+// the quorum test idealised in integers (the float64 original is at most one vote laxer: zzH_C03_quorum)
 func zzC03OverInt(count uint32, threshold uint64, isPos bool) bool {
 	num := uint64(585)
 	if isPos {
@@ -213,7 +216,7 @@ func zzC03Weight(v VotesInfoForBlockHash) uint64 {
 //verif:replace (*$M/consensus/ucon.Voter).setMarkedBlock zzC03Mark
 //verif:replace $M/consensus/ucon.OverThreshold zzC03OverInt
 //verif:replace (*$M/event.TypeMux).AsyncPost zzC03Post
-func zzH_C03_commit() { zzC03Commit(true) }
+func zzH_C03_commit() { zzC03CommitRun(true) }
 
 // the same in a round without certificate votes
 //
@@ -221,9 +224,9 @@ func zzH_C03_commit() { zzC03Commit(true) }
 //verif:replace (*$M/consensus/ucon.Voter).setMarkedBlock zzC03Mark
 //verif:replace $M/consensus/ucon.OverThreshold zzC03OverInt
 //verif:replace (*$M/event.TypeMux).AsyncPost zzC03Post
-func zzH_C03_commit_plain() { zzC03Commit(false) }
+func zzH_C03_commit_plain() { zzC03CommitRun(false) }
 
-func zzC03Commit(cert bool) {
+func zzC03CommitRun(cert bool) {
 	zzC03Log, zzC03Commits = nil, nil
 	n := zzverif.Bound("commitMessages", 4, 4)
 	round := big.NewInt(5)
